@@ -268,6 +268,10 @@ def parse_linear(eng, e):
 def sincos_term(eng, st, e):
     """(sin e, cos e) as z3 terms"""
     s = _st(eng)
+    e0 = e
+    e = z3.simplify(e, som=False)
+    if z3.is_rational_value(e) and e.numerator_as_long() == 0:
+        return RV(0), RV(1)
     try:
         atoms, pim = parse_linear(eng, e)
     except _Fail:
@@ -456,13 +460,23 @@ def _exp(eng, st, x, ty):
         s["exp"][key] = E
         eng._keep.append(e)
         eng.side.append(E > 0)
-        s.setdefault("exp_args", []).append((e, E))
+        # exp(t) * exp(-t) = 1 against the arguments seen so far (syntactic: t + t' simplifies to 0)
+        for (e2, E2) in s.setdefault("exp_args", []):
+            z = z3.simplify(e + e2)
+            if z3.is_rational_value(z) and z.numerator_as_long() == 0:
+                eng.side.append(E * E2 == 1)
+        s["exp_args"].append((e, E))
+        s.setdefault("exp_of", {})[E.get_id()] = e
     return SV(E, d=_d_scale(x, E))
 
 
 def _log(eng, st, x, ty):
     s = _st(eng)
     e = x.e
+    # log(exp(t)) = t
+    t_of = s.get("exp_of", {}).get(e.get_id()) if z3.is_const(e) else None
+    if t_of is not None:
+        return SV(t_of, d=_d_scale(x, 1 / e))
     key = e.get_id()
     L = s["log"].get(key)
     if L is None:
@@ -560,7 +574,15 @@ def _pow(eng, st, x, y, ty):
         s["exp"][key] = P
         eng._keep.extend([ex, ey])
         eng.side.append(P > 0)
-        s.setdefault("pow_args", []).append((ex, ey, P))
+        # b^y * (1/b)^y = 1 for an earlier base b' with b*b' == 1 (decided by a quick solver query) and the same exponent
+        for (bx, by, P2) in s.setdefault("pow_args", []):
+            if by.get_id() == ey.get_id():
+                q = z3.Solver()
+                q.set("timeout", 2000)
+                q.add(bx > 0, ex > 0, bx * ex != 1)
+                if q.check() == z3.unsat:
+                    eng.side.append(P * P2 == 1)
+        s["pow_args"].append((ex, ey, P))
     if _once(st, key):
         eng.add_obligation(st, "def:pow-of-positive-base", "def", ex > 0)
         st.assume(ex > 0)
